@@ -305,7 +305,16 @@ type bEntry struct {
 
 // bReadPack parses a well-formed pack (as written by git). ext supplies
 // external bases of a thin pack (hex id -> type,data).
-func bReadPack(pack []byte, sha256fmt bool, ext map[string]bObj) ([]*bEntry, error) {
+func bReadPack(pack []byte, sha256fmt bool, ext map[string]bObj) (es []*bEntry, err error) {
+	defer func() {
+		if r := recover(); r != nil { // ran off the end of a malformed pack
+			es, err = nil, fmt.Errorf("malformed pack: %v", r)
+		}
+	}()
+	return bReadPackX(pack, sha256fmt, ext)
+}
+
+func bReadPackX(pack []byte, sha256fmt bool, ext map[string]bObj) ([]*bEntry, error) {
 	hs := 20
 	if sha256fmt {
 		hs = 32
